@@ -142,3 +142,35 @@ def identity(ctx, K, with_clock, names=False, popen=False, ticks=None):
             ctx.prove(r == want, "is_running-follows-the-process", detail=f"history={log} object of incarnation {ia}: is_running()={r}, its process listed={want}")
             if ai in dead:
                 ctx.prove(r is False, "is_running-stays-false", detail=f"history={log}")
+
+
+@harness("C02.own_pid")
+def own_pid(ctx):
+    """psutil.Process() -- the calling process -- before and after a fork: the child's object is the CHILD (its pid, its start), it is
+    not equal to and does not hash like the parent's, whatever was asked about the own process before the fork"""
+    k = simk.Kernel(ctx)
+    simk.system_files(k)
+    A, B = 4242, 4300
+    sa, sb = ctx.int("parent_start", 0, 10**7), ctx.int("child_start", 0, 10**7)
+    ctx.assume(sa <= sb)
+    for pid, st_, ppid in ((A, sa, 1), (B, sb, A)):
+        simk.full_process(k, pid, ppid=ppid)
+        k.files[f"/proc/{pid}/stat"] = simk.stat_record(k, pid, b"py", b"S", {4: ppid, 22: st_})
+    simk.full_process(k, 1, ppid=0, comm="init")
+    k.dirs["/proc"] = ["1", str(A), str(B)]
+    me = {"pid": A}
+    with k.installed():
+        k.os_proxy.getpid = lambda: me["pid"]
+        warm = ctx.choice("before_the_fork", ["Process()", "Process().is_running()", "nothing"])
+        parent_obj = psutil.Process(A)
+        if warm != "nothing":
+            own = psutil.Process()
+            ctx.prove(own.pid == A and own == parent_obj and hash(own) == hash(parent_obj), "own-process-object", detail="before the fork")
+            if warm.endswith("is_running()"):
+                own.is_running()
+        me["pid"] = B                       # fork(): from here on we are the child
+        child = psutil.Process()
+        ref = psutil.Process(B)
+        ctx.prove(child.pid == B and child == ref and hash(child) == hash(ref), "own-process-object", detail="after the fork: Process() is the child")
+        ctx.prove(child != parent_obj and not (child == parent_obj), "eq-iff-same-incarnation", detail="the child's object vs the parent's")
+        ctx.prove(child.is_running() and parent_obj.is_running(), "is_running-follows-the-process")
